@@ -53,7 +53,10 @@ def _worker(args):
         lib = dict(LIB)
         if hasattr(mod, "LIB"):
             lib.update(mod.LIB)
-        res = verify.verify_function(prop, c, getattr(mod, "CALLEES", {}), lib, hooks=getattr(mod, "HOOKS", None))
+        callees = getattr(c, "callees", None) or getattr(mod, "CALLEES", {})
+        if getattr(c, "lib", None):
+            lib.update(c.lib)
+        res = verify.verify_function(prop, c, callees, lib, hooks=getattr(mod, "HOOKS", None))
         out["src"] = res.fs.describe()
         out["error"] = res.error
         out["paths"] = res.paths
